@@ -31,6 +31,13 @@ cdef class CommonRegressorCriterion(Criterion):
     def __setstate__(self, d):
         pass
 
+    def __reduce__(self):
+        """
+        The state is empty, the criterion is created again
+        with the same constructor arguments when unpickled.
+        """
+        return (self.__class__, (self.n_outputs, self.n_samples), self.__getstate__())
+
     def __deepcopy__(self, memo=None):
         """
         This does not a copy but mostly creates a new instance
